@@ -1,6 +1,6 @@
 From Coq Require Import List Arith Lia Bool.
 Import ListNotations.
-From LSConc Require Import Clock Mach Inv Pres Pres2 Pres3 Pres4 Pres5 Pres6.
+From LSConc Require Import Clock Mach Inv Pres Pres2 Pres3 Pres4 Pres5 Pres6 StepSpec.
 
 Lemma pres s t a s' : Inv s -> step s t a = Ok s' -> Inv s'.
 Proof.
@@ -43,4 +43,18 @@ Proof.
     - exfalso. eapply safe; eauto.
     - exact Logic.I. }
   apply G, inv_init.
+Qed.
+
+(* what makes each thread's view sequential: while a thread holds a reference nobody else can modify or release the
+   buffer — a write (or realloc) step is only possible for the one and only holder, a free step only when nobody holds *)
+Theorem write_excludes_others s u s' : Inv s -> step s u AWrite = Ok s' -> forall t, t <> u -> refs (getth s t) = 0.
+Proof.
+  intros I H t Hne. destruct (StepSpec.step_spec s u AWrite s' H) as (_ & _ & _ & _ & _ & He & _). cbn in He.
+  destruct (J5 s I u He) as (_ & H1 & Htot & _).
+  pose proof (total_ge2 (ths s) t u Hne). unfold T, getth in *. lia.
+Qed.
+Theorem free_excludes_holders s u s' : Inv s -> step s u AFree = Ok s' -> forall t, refs (getth s t) = 0.
+Proof.
+  intros I H t. destruct (StepSpec.step_spec s u AFree s' H) as (_ & _ & _ & _ & _ & Hm & _). cbn in Hm.
+  destruct (J4 s I u Hm) as (_ & H0 & _). pose proof (total_ge (ths s) t). unfold getth. lia.
 Qed.
